@@ -272,12 +272,14 @@ theorem processMatrix_refines (fl : Flags) {D1 D2 D3 : Nat} {amap d1map d3map : 
       · have hy' : a.covers D2 y = false := by simpa using hy
         simp [hy']
 
-/-- **rejection, one T/O line**: whatever `processMatrix` accepts is a well-formed line — provided the
-    malformed-length branch of the two-colon form throws.  (Full strength; holds for the repaired source.) -/
-theorem processMatrix_accepts_only_wellformed {fl : Flags} (hfl : fl.rowLenThrows = true)
+/-- every accepted T/O line is either a well-formed statement or — only when the malformed-length branch of
+    the two-colon form does not throw — a two-colon line with a wrong inline count that writes nothing -/
+theorem processMatrix_ok_cases {fl : Flags}
     {D1 D2 D3 : Nat} {amap d1map d3map : IDMap} {line : Str} {rest : List Str} {ws : List Write} {n : Nat}
     (h : processMatrix fl D1 D2 D3 amap d1map d3map line rest = .ok (ws, n)) :
-    ∃ s, MatrixLine D1 D2 D3 amap d1map d3map line rest s n := by
+    (∃ s, MatrixLine D1 D2 D3 amap d1map d3map line rest s n) ∨
+    (fl.rowLenThrows = false ∧ countColon line = 2 ∧ (tokenize colonSpace line).length ≠ 3 + D3 ∧
+      (tokenize colonSpace line).length ≠ 3 ∧ n = 0 ∧ ∀ w, w ∉ ws) := by
   unfold processMatrix at h
   split at h
   · -- three colons
@@ -295,7 +297,7 @@ theorem processMatrix_accepts_only_wellformed {fl : Flags} (hfl : fl.rowLenThrow
     obtain ⟨d3, r3, _⟩ := (parseIndeces_iff ..).1 hd3
     have hn : n = 0 := by have := pure_ok.1 h; injection this with _ h2; exact h2.symm
     subst hn
-    exact ⟨_, .entry hc (at?_ok.1 h1) (at?_ok.1 h2) (at?_ok.1 h3) (at?_ok.1 h4) ra r1 r3 hv⟩
+    exact Or.inl ⟨_, .entry hc (at?_ok.1 h1) (at?_ok.1 h2) (at?_ok.1 h3) (at?_ok.1 h4) ra r1 r3 hv⟩
   · rename_i hc
     obtain ⟨ta, h1, h⟩ := bind_ok.1 h
     obtain ⟨av, hav, h⟩ := bind_ok.1 h
@@ -308,7 +310,7 @@ theorem processMatrix_accepts_only_wellformed {fl : Flags} (hfl : fl.rowLenThrow
       obtain ⟨vs, hvs, h⟩ := bind_ok.1 h
       have hn : n = 0 := by have := pure_ok.1 h; injection this with _ h2; exact h2.symm
       subst hn
-      exact ⟨_, .rowInline hc (at?_ok.1 h1) (at?_ok.1 h2) ra r1 hl ((parseVectorToks_iff ..).1 hvs).2⟩
+      exact Or.inl ⟨_, .rowInline hc (at?_ok.1 h1) (at?_ok.1 h2) ra r1 hl ((parseVectorToks_iff ..).1 hvs).2⟩
     · have hb : ((tokenize colonSpace line).length == 3 + D3) = false := by simpa using hl
       simp only [hb, Bool.false_eq_true, if_false] at h
       by_cases hl3 : (tokenize colonSpace line).length = 3
@@ -317,9 +319,19 @@ theorem processMatrix_accepts_only_wellformed {fl : Flags} (hfl : fl.rowLenThrow
         obtain ⟨vs, hvs, h⟩ := bind_ok.1 h
         have hn : n = 1 := by have := pure_ok.1 h; injection this with _ h2; exact h2.symm
         subst hn
-        exact ⟨_, .rowNext hc (at?_ok.1 h1) (at?_ok.1 h2) ra r1 hl3 (by omega) (at?_ok.1 hr) hvs⟩
+        exact Or.inl ⟨_, .rowNext hc (at?_ok.1 h1) (at?_ok.1 h2) ra r1 hl3 (by omega) (at?_ok.1 hr) hvs⟩
       · have hb3 : ((tokenize colonSpace line).length == 3) = false := by simpa using hl3
-        simp [hb3, hfl] at h
+        simp only [hb3, Bool.false_eq_true, if_false] at h
+        by_cases hfl : fl.rowLenThrows = true
+        · simp [hfl] at h
+        · have hfl' : fl.rowLenThrows = false := by simpa using hfl
+          simp only [hfl', Bool.false_eq_true, if_false] at h
+          have hp := pure_ok.1 h
+          injection hp with hw hn
+          refine Or.inr ⟨hfl', hc, hl, hl3, hn.symm, ?_⟩
+          intro w hw'
+          rw [← hw] at hw'
+          simp [writesRow, writesVec, enumFrom] at hw'
   · rename_i hc
     obtain ⟨ta, h1, hA⟩ := bind_ok.1 h
     obtain ⟨av, hav, hB⟩ := bind_ok.1 hA
@@ -329,8 +341,18 @@ theorem processMatrix_accepts_only_wellformed {fl : Flags} (hfl : fl.rowLenThrow
     obtain ⟨rows, hl, hle, hd, _⟩ := (matrixRows_iff ..).1 hm
     have hn : n = D1 := by have := pure_ok.1 hC; injection this with _ h2; exact h2.symm
     subst hn
-    exact ⟨_, .matrix hc (at?_ok.1 h1) ra hl hle hd⟩
+    exact Or.inl ⟨_, .matrix hc (at?_ok.1 h1) ra hl hle hd⟩
   · cases h
+
+/-- **rejection, one T/O line**: whatever `processMatrix` accepts is a well-formed line — provided the
+    malformed-length branch of the two-colon form throws.  (Full strength; holds for the repaired source.) -/
+theorem processMatrix_accepts_only_wellformed {fl : Flags} (hfl : fl.rowLenThrows = true)
+    {D1 D2 D3 : Nat} {amap d1map d3map : IDMap} {line : Str} {rest : List Str} {ws : List Write} {n : Nat}
+    (h : processMatrix fl D1 D2 D3 amap d1map d3map line rest = .ok (ws, n)) :
+    ∃ s, MatrixLine D1 D2 D3 amap d1map d3map line rest s n := by
+  rcases processMatrix_ok_cases h with hs | ⟨hf, _⟩
+  · exact hs
+  · rw [hfl] at hf; cases hf
 
 /-! ### one reward statement line -/
 
